@@ -362,6 +362,8 @@ def _to_py(p, form):
     import numpy as np
 
     if form == "i":
+        if any(v % 16 for v in p):      # not whole numbers: hand over floats instead
+            return tuple(v / 16.0 for v in p)
         return tuple(int(v // 16) for v in p)
     if form == "f":
         return tuple(v / 16.0 for v in p)
